@@ -1,0 +1,155 @@
+//go:build verif
+
+package corebgp
+
+import (
+	"context"
+	"errors"
+	"net"
+	"net/netip"
+	"time"
+)
+
+// Hooks and export shims for the external verification harness. This file is
+// only compiled with the "verif" build tag.
+const verifEnabled = true
+
+// verifDialHook, when non-nil, replaces the net.Dialer in fsm.dialPeer.
+var verifDialHook func(ctx context.Context, local, remote netip.Addr, port int) (net.Conn, error)
+
+// VerifSetDialHook installs (or with nil removes) the outbound dial hook.
+func VerifSetDialHook(fn func(ctx context.Context, local, remote netip.Addr, port int) (net.Conn, error)) {
+	verifDialHook = fn
+}
+
+// VerifOpen is the exported view of a decoded OPEN message.
+type VerifOpen struct {
+	Version  uint8
+	ASN      uint16
+	HoldTime uint16
+	BGPID    uint32
+	// Params lists, per optional parameter, the capabilities it carries.
+	Params [][]Capability
+}
+
+func verifOpenView(o *openMessage) VerifOpen {
+	v := VerifOpen{Version: o.version, ASN: o.asn, HoldTime: o.holdTime, BGPID: o.bgpID}
+	for _, p := range o.optionalParams {
+		if c, ok := p.(*capabilityOptionalParam); ok {
+			v.Params = append(v.Params, c.capabilities)
+		}
+	}
+	return v
+}
+
+func verifOpenFromView(v VerifOpen) *openMessage {
+	o := &openMessage{version: v.Version, asn: v.ASN, holdTime: v.HoldTime, bgpID: v.BGPID}
+	for _, caps := range v.Params {
+		o.optionalParams = append(o.optionalParams, &capabilityOptionalParam{capabilities: caps})
+	}
+	return o
+}
+
+// VerifNotifErr reports whether err carries a notificationError and returns
+// its Notification and direction (out = to be sent to the peer).
+func VerifNotifErr(err error) (n *Notification, out bool, ok bool) {
+	var nerr *notificationError
+	if errors.As(err, &nerr) {
+		return nerr.notification, nerr.out, true
+	}
+	return nil, false, false
+}
+
+// VerifOpenDecode runs openMessage.decode on an OPEN message body.
+func VerifOpenDecode(body []byte) (VerifOpen, error) {
+	o := &openMessage{}
+	err := o.decode(body)
+	if err != nil {
+		return VerifOpen{}, err
+	}
+	return verifOpenView(o), nil
+}
+
+// VerifOpenValidate runs openMessage.decode followed by openMessage.validate.
+// decoded is false when decode failed.
+func VerifOpenValidate(body []byte, localID, localAS, remoteAS uint32) (v VerifOpen, caps []Capability, decoded bool, err error) {
+	o := &openMessage{}
+	err = o.decode(body)
+	if err != nil {
+		return VerifOpen{}, nil, false, err
+	}
+	err = o.validate(localID, localAS, remoteAS)
+	return verifOpenView(o), o.getCapabilities(), true, err
+}
+
+// VerifOpenEncode encodes the given OPEN view (complete message incl. header).
+func VerifOpenEncode(v VerifOpen) ([]byte, error) {
+	return verifOpenFromView(v).encode()
+}
+
+// VerifNewOpen runs newOpenMessage followed by encode, as
+// fsm.sendOpenAndSetHoldTimer does.
+func VerifNewOpen(asn uint32, holdTime time.Duration, bgpID uint32, caps []Capability) ([]byte, error) {
+	o, err := newOpenMessage(asn, holdTime, bgpID, caps)
+	if err != nil {
+		return nil, err
+	}
+	return o.encode()
+}
+
+// VerifNotificationDecode runs Notification.decode on a NOTIFICATION body.
+func VerifNotificationDecode(body []byte) (*Notification, error) {
+	n := &Notification{}
+	err := n.decode(body)
+	if err != nil {
+		return nil, err
+	}
+	return n, nil
+}
+
+// VerifNotificationEncode runs Notification.encode (complete message).
+func VerifNotificationEncode(n *Notification) ([]byte, error) {
+	return n.encode()
+}
+
+// VerifCapsDecode runs capabilityOptionalParam.decode on a parameter value.
+func VerifCapsDecode(b []byte) ([]Capability, error) {
+	c := &capabilityOptionalParam{}
+	err := c.decode(b)
+	if err != nil {
+		return nil, err
+	}
+	return c.capabilities, nil
+}
+
+// VerifCapEncode runs Capability.encode.
+func VerifCapEncode(c Capability) []byte {
+	return c.encode()
+}
+
+// VerifReadMessages runs the FSM's reader goroutine body (fsm.read) on conn
+// and reports, in order, the type of every message it delivers followed by the
+// error it ends with. Message values are returned through deliver.
+func VerifReadMessages(conn net.Conn, deliver func(msgType uint8, update []byte, n *Notification, open *VerifOpen)) error {
+	f := &fsm{conn: conn}
+	f.startReading()
+	for {
+		select {
+		case m := <-f.readerMsgCh:
+			switch m := m.(type) {
+			case *openMessage:
+				v := verifOpenView(m)
+				deliver(m.messageType(), nil, nil, &v)
+			case updateMessage:
+				deliver(m.messageType(), []byte(m), nil, nil)
+			case *Notification:
+				deliver(m.messageType(), nil, m, nil)
+			default:
+				deliver(m.messageType(), nil, nil, nil)
+			}
+		case err := <-f.readerErrCh:
+			<-f.readerDoneCh
+			return err
+		}
+	}
+}
